@@ -53,3 +53,11 @@ func SpecCtx(c iclient.CodegenClient) *codegen.CodeGenContext {
 //@ requires c != nil && c.ctx != nil
 //@ ensures[set] vcSame(c.ctx.SymTable, symTable)
 //@ assigns CodeGenContext.SymTable
+
+// Thin safety-only contracts (C13): these functions get one obligation per panic site; callers keep
+// using their bodies (option inline).
+
+//@ func parseLineToOcode
+//@ props C13
+//@ option inline
+//@ ensures[safe] true
